@@ -365,7 +365,7 @@ def spaces(tier, seed):
                 for ct in itertools.product((1, 2, 3, 4), repeat=k):
                     yield (p, ct)
 
-    return [
+    out = [
         Space.of("get_subtree", lambda: trees(st_hi, lt_hi), check_subtree, bounds={"ST_max": st_hi, "LT_max": lt_hi, "starts": "all", "mapping_kinds": 5}),
         Space.of("removal-sets-and-callbacks", lambda: trees(st_hi, lt_hi - 1 if q else lt_hi), check_removal,
                  bounds={"ST_max": st_hi, "LT_max": lt_hi - 1 if q else lt_hi, "removal_sets": "all subsets of non-root nodes", "callback_family": "id in S (enter, leave), depth>=D, height<=H"}),
@@ -374,3 +374,6 @@ def spaces(tier, seed):
         Space.of("cut-short-tip-branch", gen_short, check_short, bounds={"ST_max": sh_hi, "edge_lengths": "{1,2}^(n-1)", "thresholds": [0.5, 1.5, 2.5, 3.5, 4.5]}),
         Space.of("neurites-dendrites", gen_neur, check_neurites, bounds={"ST_max": 6 if q else 7, "root_child_types": "{1,2,3,4}^k"}),
     ]
+    for sp in out:  # every tree returned by an operation is re-inspected after the later operations of this and the next cases
+        sp.auto_retain = True
+    return out
